@@ -40,6 +40,37 @@ def case(part, item):
     name = name_of(cfg)
     det = {'cfg': cfg, 'schedule': sname}
     k = cfg['kfac']
+    if cfg.get('f16_total'):
+        # regime wanted: every layer's term stays well below the float16
+        # range (5.0e4), their total is well above it (>= 7.0e4).  Model and
+        # loss multiplier are chosen per data seed from a probe run (terms
+        # scale with the square of the multiplier; identity factors).
+        ok = False
+        for model in cfg['f16_total']:
+            probe = copy.deepcopy(cfg)
+            probe.update(model=model, loss_mult=20.0, history=[['train']])
+            probe['kfac']['kl_clip'] = None
+            try:
+                rp, _ = run_cfg(probe, sname)
+            except Exception:  # noqa
+                continue
+            ev0 = rp[0][0]
+            per = {}
+            for pn, V in ev0['P'].items():
+                ln = pn.rsplit('.', 1)[0]
+                per[ln] = per.get(ln, 0.0) + (
+                    V.to(F64) * ev0['D'][pn].to(F64)).sum().item()
+            terms = [abs(v) * k['lr'] ** 2 for v in per.values()]
+            if max(terms) > 0 and sum(terms) / max(terms) >= 1.4:
+                cfg = dict(cfg, model=model,
+                           loss_mult=20.0 * math.sqrt(5.0e4 / max(terms)))
+                ok = True
+                break
+        if not ok:
+            part.count('f16_total_family_out_of_regime')
+            return
+        name = name_of(cfg) + f"/mult={cfg['loss_mult']:.1f}"
+        det = {'cfg': cfg, 'schedule': sname}
     try:
         cfgA = copy.deepcopy(cfg)
         # V comes from a run without any scaling code (kl_clip=None); the
@@ -222,7 +253,9 @@ def configs(thorough, seed):
                  compute_eigenvalue_outer_product=pre)
         out.append(({'model': 'wide', 'dtype': 'f16', 'batch': 2, 'world': 1,
                      'seed': seed, 'kfac': k, 'sgd_lr': 0.0,
-                     'loss_mult': 38.0, 'history': [['train']] * 2},
+                     'loss_mult': 38.0, 'history': [['train']] * 1,
+                     'f16_total': ['wide', 'mlp3', 'nbfirst', 'gated',
+                                   'mlp2']},
                     'single'))
     strategies = {2: ['COMM_OPT', 'MEM_OPT'],
                   4: ['COMM_OPT', 'MEM_OPT', 'HYBRID_OPT']}
